@@ -4,6 +4,7 @@ import OpcuaModel.Model.Tamper
   Driver for C09.
     vad <enc 0|1> <H> <RS> <S> <v 0|1> <dec aes|ok|fail> <hex b>
         → ok <dataLen> | err | panic <site>
+    carve <modeNone 0|1> <policyNone 0|1> <asym 0|1> → raw | secured
   `b` is the chunk in its post-decryption form (header ‖ plaintext); `dec`
   selects how `c.algo.Decrypt` behaves on `b[H:]`: `aes` = length preserving,
   refuses < 16 bytes and non-multiples of 16 (uapolicy/crypto_aes.go), `ok` =
@@ -35,6 +36,7 @@ def handle : List String → String
       | .err => "err"
       | .panic site => s!"panic {siteName site}"
     | _, _, _, _, _ => "bad-op"
+  | ["carve", m, p, a] => if carveOut (m == "1") (p == "1") (a == "1") then "raw" else "secured"
   | _ => "bad-op"
 
 def main : IO Unit := runDriver handle
